@@ -452,7 +452,7 @@ def _run_case(case):
     if npos > 1 or (not g['scalar'] and rng.random() < 0.3):
         _rel_singles(case, rng, g, ap, data, error, mask, wcs, lbk, obs, base)
     _documented_rejections(case, rng, g, ap, data, base)
-    if g['scalar'] and rng.random() < 0.25:
+    if g['scalar'] and form != 'sky' and rng.random() < 0.25:
         _rel_region(case, g, data, error, mask, obs, base)
     if form == 'sky':
         _rel_other_form(case, g, ap, data, error, mask, wcs, obs, 'sky_equals_to_pixel', base, st=st)
@@ -579,7 +579,7 @@ def _check_moments(case, obs, k, o, m):
     if not (cond <= COND_MAX):
         case.note('moment_checks_skipped_ill_conditioned')
         return
-    tol = 1e-10 * cond * (L + 1.0)
+    tol = 1e-9 * cond * (L + 1.0)     # measured max 1.6e-12*(L+1) over 65k thorough cases
     # centroid in image coordinates: x and y separately, keyed by the overhang on that axis
     for axis, name, exp, over in (('x', 'xcentroid', mom['cx'], o['overhang_x']),
                                   ('y', 'ycentroid', mom['cy'], o['overhang_y'])):
@@ -609,7 +609,7 @@ def _check_moments(case, obs, k, o, m):
             if p + q > 3:
                 continue
             scale = (Cabs[p, q] + mom['abs'] * (L + 1.0) ** max(p + q - 1, 0) * 1e-3) * cond
-            ok, d = R.near(Cobs[p, q], Cref[p, q], scale, 1e-9)
+            ok, d = R.near(Cobs[p, q], Cref[p, q], scale, 1e-8)    # measured max 1.4e-11
             worst = max(worst, d)
             okall &= ok
     case.dev('central_moments_vs_definition', worst)
@@ -628,7 +628,7 @@ def _check_moments(case, obs, k, o, m):
     cov = mom['cov']
     det = cov[0, 0] * cov[1, 1] - cov[0, 1] ** 2
     Cov_obs = obs['covariance'][0][k]
-    covtol = 1e-9 * cond * (L + 1.0) ** 2
+    covtol = 1e-8 * cond * (L + 1.0) ** 2      # measured max 4e-10*(L+1)^2
     # (the determinant itself must be well conditioned: a nearly singular matrix with large entries may
     #  round to either side of the 1/144 regularisation threshold or of zero)
     det_noise = 1e-6 * (abs(cov[0, 0] * cov[1, 1]) + cov[0, 1] ** 2)
@@ -676,7 +676,7 @@ def _check_shape(case, obs, k, s, what, m, loose=1.0):
     ok = R.near(ev[0], l1, l1, rt)[0] and R.near(ev[1], l2, l1, rt)[0]
     case.check(ok, what, dict(m, prop='covariance_eigvals'), obs=ev, exp=[l1, l2])
     if kappa < 1e8:
-        for name, tol in (('eccentricity', 1e-7), ('ellipticity', 1e-8 * kappa), ('elongation', 1e-8 * kappa)):
+        for name, tol in (('eccentricity', 2e-6), ('ellipticity', 1e-8 * kappa), ('elongation', 1e-8 * kappa)):   # ecc: measured max 1.1e-8 (near-circular)
             d = abs(obs[name][0][k] - s[name])
             case.dev(what + '_' + name, d)
             case.check(d <= tol * max(loose, 1.0) * max(1.0, abs(s[name])), what, dict(m, prop=name),
@@ -684,10 +684,8 @@ def _check_shape(case, obs, k, s, what, m, loose=1.0):
         if s['aniso'] > 1e-6:
             d = S16.angle_diff_mod180(float(obs['orientation'][0][k]), s['orientation'])
             case.dev(what + '_orientation_deg', d)
-            case.check(d <= 1e-7 * max(loose, 1.0) / s['aniso'] * 1e-0 + 1e-9, what, dict(m, prop='orientation'),
+            case.check(d <= 1e-7 * max(loose, 1.0) / s['aniso'] + 1e-9, what, dict(m, prop='orientation'),
                        obs=float(obs['orientation'][0][k]), exp=s['orientation'])
-            case.check(-90.0 - 1e-9 <= float(obs['orientation'][0][k]) <= 90.0 + 1e-9, 'orientation_range', m,
-                       obs=float(obs['orientation'][0][k]))
             cmax = max(abs(s['cxx']), abs(s['cyy']), abs(s['cxy']))
             for name in ('cxx', 'cyy', 'cxy'):
                 d = abs(obs[name][0][k] - s[name])
@@ -776,7 +774,7 @@ def _rel_photometry(case, ap, data, error, mask, ora, obs, g, lbk, base):
             elif math.isfinite(e) and math.isfinite(got):
                 d = abs(got * got - e * e)
                 case.dev('sum_err_equals_aperture_photometry', d / (e * e) if e else 0.0)
-                case.check(d <= 1e-12 * e * e + atol_var, 'sum_err_equals_aperture_photometry', m, obs=got, exp=e, pos=k)
+                case.check(d <= 1e-10 * e * e + atol_var, 'sum_err_equals_aperture_photometry', m, obs=got, exp=e, pos=k)
             else:
                 case.check((math.isnan(e) and math.isnan(got)) or e == got, 'sum_err_equals_aperture_photometry', m,
                            obs=got, exp=e, pos=k)
